@@ -1,5 +1,7 @@
 import BeffVerif.Props.C03
 import BeffVerif.Props.C03NoThrow
+import BeffVerif.Props.C03Report
+import BeffVerif.Props.C03Parse
 open BeffVerif.C03
 #print axioms safeParse_success_iff_validate
 #print axioms safeParse_failure_iff_not_validate
@@ -9,3 +11,8 @@ open BeffVerif.C03
 #print axioms union_parse_drops_proto_named_key
 #print axioms array_intersection_parses_to_object
 #print axioms validate_no_throw
+#print axioms report_no_throw
+#print axioms safeParse_failure_branch_no_throw
+#print axioms parseAV_no_throw
+#print axioms safeParse_no_throw
+#print axioms parse_only_documented_failure
